@@ -50,6 +50,7 @@ type App struct {
 	lastChange  atomic.Int64 // unix nanos of the last callback
 	InFlight    atomic.Int32
 	MaxInFlight atomic.Int32
+	SlowPairing atomic.Int64 // ms the application needs for a pairing-detail notification
 }
 
 func (a *App) add(kind, ski string, state int, data string) {
@@ -78,6 +79,9 @@ func (a *App) VisibleRemoteServicesUpdated(entries []api.RemoteService) {
 func (a *App) ServiceShipIDUpdate(ski, id string) { a.add("shipid", ski, 0, id) }
 func (a *App) ServicePairingDetailUpdate(ski string, d *api.ConnectionStateDetail) {
 	a.add("pairing", ski, int(d.State()), "")
+	if ms := a.SlowPairing.Load(); ms > 0 {
+		time.Sleep(time.Duration(ms) * time.Millisecond)
+	}
 }
 func (a *App) AllowWaitingForTrust(ski string) bool {
 	a.mu.Lock()
@@ -439,6 +443,7 @@ type relay struct {
 	a, b   net.Conn
 	at     time.Duration
 	closed atomic.Bool
+	half   atomic.Bool // dialler side closed, target side kept open (stale)
 }
 
 // Proxy relays x's outbound connections to y and records them.
@@ -489,8 +494,18 @@ func (p *Proxy) serve() {
 		p.mu.Lock()
 		p.relays = append(p.relays, r)
 		p.mu.Unlock()
-		go func() { _, _ = io.Copy(d, c); r.close() }()
-		go func() { _, _ = io.Copy(c, d); r.close() }()
+		go func() {
+			_, _ = io.Copy(d, c)
+			if !r.half.Load() {
+				r.close()
+			}
+		}()
+		go func() {
+			_, _ = io.Copy(c, d)
+			if !r.half.Load() {
+				r.close()
+			}
+		}()
 	}
 }
 
@@ -516,6 +531,22 @@ func (p *Proxy) Cut() int {
 	return n
 }
 
+// HalfCut closes only the dialler-side socket of every live relay; the target keeps its
+// socket (and does not learn about the loss until it writes or its ping times out).
+func (p *Proxy) HalfCut() int {
+	p.mu.Lock()
+	rs := append([]*relay(nil), p.relays...)
+	p.mu.Unlock()
+	n := 0
+	for _, r := range rs {
+		if !r.closed.Load() && r.half.CompareAndSwap(false, true) {
+			r.a.Close()
+			n++
+		}
+	}
+	return n
+}
+
 func (p *Proxy) SetRefuse(on bool) {
 	p.mu.Lock()
 	p.Refuse = on
@@ -528,7 +559,7 @@ func (p *Proxy) Live() int {
 	defer p.mu.Unlock()
 	n := 0
 	for _, r := range p.relays {
-		if !r.closed.Load() {
+		if !r.closed.Load() && !r.half.Load() {
 			n++
 		}
 	}
@@ -545,9 +576,14 @@ func (p *Proxy) Accepts() []time.Duration {
 func (p *Proxy) Close() {
 	p.mu.Lock()
 	p.closed = true
+	rs := append([]*relay(nil), p.relays...)
 	p.mu.Unlock()
 	p.l.Close()
-	p.Cut()
+	for _, r := range rs {
+		r.closed.Store(true)
+		r.a.Close()
+		r.b.Close()
+	}
 }
 
 // ---- helpers -----------------------------------------------------------------------------
